@@ -122,7 +122,7 @@ def main():
             for receiver in (False, True):
                 deposit_step(ck, prog, op, lp_kind, receiver)
         close_step(ck, prog, lp_kind)
-        for n_closed in (0, 1, 2): withdraw_step(ck, prog, lp_kind, n_closed)
+        for n_closed in ((0, 1, 2) if ck.tier == 'quick' else (0, 1, 2, 3, 4)): withdraw_step(ck, prog, lp_kind, n_closed)
     try:
         import c11_helper
         c11_helper.run(ck)
